@@ -455,3 +455,37 @@ Theorem C02_generated_set_route_compile_is_model :
                 (a_defaults a) (a_filters a)).
 Proof. exact set_route_via_generated. Qed.
 Print Assumptions C02_generated_set_route_compile_is_model.
+
+(* ---- the two request facts the selection rests on, generated from the
+   current request.py (SimpleRequest.method, method_number, path) and
+   state.py (the `methods` table) by harness/py2v_reqfacts.py
+   (gen/ReqFactsGen.v, over lib/Py.v + lib/PyDigest.v + lib/PyReqFacts.v):
+   [select] is applied to [method_number method] and [req_path raw_path];
+   these are what the properties compute from REQUEST_METHOD and PATH_INFO
+   of the environ (items [ei], any dictionary).  A method token that is not
+   a key of the table (or an absent REQUEST_METHOD) is GET (2); the path is
+   the latin-1 -> UTF-8 re-decoding of PATH_INFO, PATH_INFO itself when
+   that raises UnicodeError (the strict UTF-8 decoder is the model's
+   [utf8_decode]). *)
+Require Import PW.lib.Py PW.lib.PyDigest PW.lib.PyReqFacts PW.gen.ReqFactsGen
+        PW.proofs.ReqFactsGenEq.
+
+Theorem C02_generated_method_number_is_model :
+  forall ei,
+    (forall tok, items_get (PStr k_request_method) ei = Some (PStr tok) ->
+       gen_method_number (PDict ei)
+       = Py.Ok (PInt (PW.model.Routing.method_number tok))) /\
+    (items_get (PStr k_request_method) ei = None ->
+       gen_method_number (PDict ei) = Py.Ok (PInt 2)).
+Proof.
+  intros ei. split; [exact (gen_method_number_eq ei)|exact (gen_method_number_absent ei)].
+Qed.
+Print Assumptions C02_generated_method_number_is_model.
+
+Theorem C02_generated_path_is_model :
+  forall ei raw,
+    items_get (PStr k_path_info) ei = Some (PStr raw) ->
+    gen_path PW.model.Routing.utf8_decode (PDict ei)
+    = Py.Ok (PStr (PW.model.Routing.req_path raw)).
+Proof. exact gen_path_routing. Qed.
+Print Assumptions C02_generated_path_is_model.
